@@ -1,5 +1,5 @@
 (* Correspondence suites for C06: suite name -> arguments -> observation text. *)
-Require Import Bytes AMap Dispatch DispatchMachine.
+Require Import Bytes AMap Dispatch DispatchSpec DispatchMachine.
 
 Definition one_byte06 (b : N) (s : str) : bool := match s with [c] => c =? b | _ => false end.
 
@@ -223,7 +223,7 @@ Fixpoint stuck_at (sc : scenario) (s : state) (tr : list action) (i : nat) : opt
   | a :: r => match step sc s a with Some s' => stuck_at sc s' r (S i) | None => Some i end
   end.
 
-(* arguments: recover, nH, nH x [cmd, flags], nInit, nInit x [h], nE, nE x [cmd, echo], nC,
+(* arguments: recover, nH, nH x [cmd, flags], nInit, nInit x [h], nE, nE x [cmd, source nick, client's nick when the line is read], nC,
    nC x [clear command], nT, nT x [count, count x [op]], nCert, nCert x [action], then the
    observed actions *)
 Definition show_trace (args : list str) : str :=
@@ -235,7 +235,7 @@ Definition show_trace (args : list str) : str :=
       let inits := List.map N_of (firstn (nat_of ni) r1') in
       match skipn (nat_of ni) r1' with
       | ne :: r2 =>
-        let (es, r3) := take_groups (nat_of ne) 2 r2 in
+        let (es, r3) := take_groups (nat_of ne) 3 r2 in
         match r3 with
         | nc :: r3' =>
           let clears := firstn (nat_of nc) r3' in
@@ -246,7 +246,7 @@ Definition show_trace (args : list str) : str :=
             | ncert :: r6 =>
               let decls := List.map decl_of hs in
               let evs := List.map (fun g => match g with
-                                            | c :: e :: _ => mkEv c (one_byte06 49 e)
+                                            | c :: src :: nick :: _ => received c src nick
                                             | _ => mkEv [] false
                                             end) es in
               let sc := mkSc drv_uid decls inits evs ths (memb 49 rc) in
